@@ -646,7 +646,7 @@ func sameValue(a, b Value) bool {
 			return false
 		}
 		for i := range av.E {
-			if av.E[i].Guard != bv.E[i].Guard || av.E[i].Key != bv.E[i].Key || av.E[i].Pres != bv.E[i].Pres || !sameValue(av.E[i].Val, bv.E[i].Val) {
+			if av.E[i].Guard != bv.E[i].Guard || !sameMapKey(av.E[i], bv.E[i]) || av.E[i].Pres != bv.E[i].Pres || !sameValue(av.E[i].Val, bv.E[i].Val) {
 				return false
 			}
 		}
